@@ -329,11 +329,16 @@ PROPS['C12'] = {
 
 PROPS['C14'] = {
     'theorems': ['RQ.Args.C14_options', 'RQ.Args.C14_push', 'RQ.Args.C14_same', 'RQ.Args.C14_add', 'RQ.Args.C14_repeated_refused',
-                 'RQ.Args.C14_needs_single_once', 'RQ.Args.C14_goal_first_arg'],
+                 'RQ.Args.C14_needs_single_once', 'RQ.Args.C14_goal_first_arg',
+                 'RQ.Analysis.C14_search_total', 'RQ.Analysis.C14_search_empty_needle', 'RQ.Analysis.C14_search_correct', 'RQ.Analysis.C14_search_mem',
+                 'RQ.Analysis.C14_multiapply_places', 'RQ.Analysis.C14_multiapply_stops', 'RQ.Analysis.C14_multiapply_pure'],
+    'extra_modules': ['RQ.Props.C14Analysis'],
     'verdict': 'SPEC',
-    'jobs': push_jobs(['inv=2'], ['inv=3']),
-    'nontrivial': lambda l: any(o in l.split('|=>|')[0] for o in ('--mmap', ' -v', '--stats', '--color', '-A multiapply')) or ' -q' not in l.split('|=>|')[0],
-    'histogram': push_hist,
+    'jobs': push_jobs(['inv=2'], ['inv=3']) +
+            # the -A multiapply analysis and its line searcher: model (RQ/Model/Analysis.lean) against the real code
+            [{'quick': ['analysis', 'seed={seed}', 'n=30000'], 'thorough': ['analysis', 'seed={seed}', 'n=1000000']}],
+    'nontrivial': lambda l: (l.split('|=>|')[-1] not in ('-', '-|-')) if l.startswith('N|') else (any(o in l.split('|=>|')[0] for o in ('--mmap', ' -v', '--stats', '--color', '-A multiapply')) or ' -q' not in l.split('|=>|')[0]),
+    'histogram': lambda c, d: (['analysis:' + ('searcher' if c.split('|')[2] == 'S' else ('notes' if not c.endswith('|-') else 'no-notes'))] if c.startswith('N|') else push_hist(c, d)),
     'rule': PUSH_RULE + "; every invocation draws its presentation/loader options at random: -q | -v | -v -v | -q -v | none, "
             "--mmap (25%), --stats (10%), --color always|never (20%), -A multiapply (10%); trees contain zero-length source "
             "files, series contain zero-length patch files, 45% failing series. non-trivial = an invocation with a "
@@ -448,8 +453,9 @@ PROPS['C08'] = {
 PROPS['C18'] = {
     'theorems': ['RQ.Push.C18_fault_is_error', 'RQ.Push.C18_success_means_no_fault', 'RQ.Push.C18_recorded_last',
                  'RQ.Par.C18_par_save_fault_is_error', 'RQ.Par.C18_par_driver_fault_is_error', 'RQ.Par.C18_par_fault_is_error', 'RQ.Par.C18_par_success_means_no_fault',
-                 'RQ.Par.C18_par_recorded_last', 'RQ.Par.C18_par_applied_unchanged', 'RQ.Par.C18_par_no_fault'],
-    'extra_modules': ['RQ.Props.C18Par'],
+                 'RQ.Par.C18_par_recorded_last', 'RQ.Par.C18_par_applied_unchanged', 'RQ.Par.C18_par_no_fault',
+                 'RQ.Par.saveNoPanic', 'RQ.Par.C18_par_fault_is_error_clean', 'RQ.Par.C18_par_outcome_clean'],
+    'extra_modules': ['RQ.Props.C18Par', 'RQ.Props.C18ParClean'],
     'verdict': 'C18',
     'jobs': [{'quick': ['pushfault', 'seed={seed}', 'n=2000', 'perws=8'], 'thorough': ['pushfault', 'seed={seed}', 'n=60000', 'perws=64']},
              {'quick': ['pushfault', 'seed={seed}', 'n=1200', 'perws=8', 'threads=2,3,4'], 'thorough': ['pushfault', 'seed={seed}', 'n=30000', 'perws=64', 'threads=2,3,4,8']}],
@@ -551,4 +557,4 @@ def replay_engine(path):
         if l and not l.startswith('#'):
             first = l
             break
-    return {'A': 'apply-replay', 'T': 'fuzzpair-replay', 'D': 'dist-replay', 'U': 'parse-replay', 'S': 'series-replay', 'P': 'path-replay', 'W': 'push-replay', 'F': 'pushfault-replay', 'C': 'diff-replay'}.get(first.split('|')[0], 'apply-replay')
+    return {'A': 'apply-replay', 'T': 'fuzzpair-replay', 'D': 'dist-replay', 'U': 'parse-replay', 'N': 'analysis-replay', 'S': 'series-replay', 'P': 'path-replay', 'W': 'push-replay', 'F': 'pushfault-replay', 'C': 'diff-replay'}.get(first.split('|')[0], 'apply-replay')
